@@ -338,7 +338,19 @@ def finding_key(case, desc, decoded):
     # length of x, a count above the budget or a wrong budget echo form no square on the way: never excused.
     if not (isinstance(desc, str) and desc.startswith("Ok(") and ("true relative residual" in desc or "x is not finite" in desc)):
         return None
-    return KEY_SQUARE_RANGE if scale_out_of_range(Sys.from_json(m["sys"])) else None
+    if scale_out_of_range(Sys.from_json(m["sys"])):
+        return KEY_SQUARE_RANGE
+    # `solve_qmr/residual-drift`: QMR's smoothed residual recurrence is multiplied every step by scalars that the iterates do
+    # not bound, so its drift from b - A x is NOT proportional to eps * k * ||A|| * (largest iterate) (the drift theorem
+    # residual_drift covers CG, BiCG, BiCGSTAB only).  Granted only to the drift clause of QMR and only when the float MODEL
+    # reproduces the implementation's answer bit for bit (same Ok, same count, same x): a mutated solver cannot hide behind it.
+    if m.get("solver") == "qmr" and "true relative residual" in desc and decoded is not None:
+        a = Ans(decoded)
+        tr = model_trace(case, PID, force=True)
+        if (tr is not None and not tr.panic and not a.panic and a.ok and tr.ok and tr.k == a.k
+                and [f64_bits(v) for v in tr.x] == [f64_bits(v) for v in a.x]):
+            return "solve_qmr/residual-drift"
+    return None
 
 def prepare(tier):
     del iterlib.PENDING[:]
